@@ -125,3 +125,8 @@ func runC01(c *Ctx) {
 		}
 	}
 }
+
+func peAccepts(img []byte) bool {
+	_, err := pe.NewFile(bytes.NewReader(img))
+	return err == nil
+}
